@@ -95,6 +95,12 @@ def judge_rewrite(ctx: core.Ctx, case: dict[str, Any]) -> None:
     if any(c in forbidden for d in ds for c in d):
         ctx.count("rewrite_rejected:delimiter-shares-a-character-with-the-template")
         return
+    # the line-comment marker inside liquid tags is derived from the comment start delimiter (its braces dropped, "#" if nothing is left):
+    # it is template text of the rewritten template, and the tag's end delimiter must not occur in it
+    marker = ds[4].replace("{", "") or "#"
+    if ds[1] in marker and any(n[0] in ("inline", "liquid") for n in _walk(nodes)):  # (the tag would end at its own comment marker)
+        ctx.count("rewrite_rejected:delimiter-shares-a-character-with-the-derived-line-comment-marker")
+        return
     src_d = tpl.print_nodes(nodes, style(DEFAULT, wc, tight), random.Random(seed))
     src_c = tpl.print_nodes(nodes, style(ds, wc, tight), random.Random(seed))
     data = V.dec(case["data"])
